@@ -159,6 +159,36 @@ fn random_double(src: &mut Src) -> f64 {
     };
     f64::from_bits((sign << 63) | (((e + 1023) as u64) << 52) | frac)
 }
+/// Degrees, magnifications and unit sizes as layouts carry them
+fn plausible_field(src: &mut Src) -> f64 {
+    let base: f64 = match src.weighted(&[4, 2, 3, 2]) {
+        0 => 90.0 * src.signed(8) as f64,
+        1 => 45.0 * src.signed(16) as f64,
+        2 => src.signed(1000) as f64,
+        _ => *src.pick(&[1e-3, 1e-9, 1e-6, 0.5, 0.25, 2.0, 1000.0, 0.001, 1e-10, 2e-9]),
+    };
+    let x = match src.weighted(&[3, 2, 3, 1, 1]) {
+        0 => base,
+        1 => {
+            let k = src.i64_in(1, 3);
+            if base == 0.0 {
+                base
+            } else if src.bool() {
+                f64::from_bits(base.to_bits() + k as u64)
+            } else {
+                f64::from_bits(base.to_bits() - k as u64)
+            }
+        }
+        2 => base + (src.u64() >> 11) as f64 / (1u64 << 53) as f64 * if src.bool() { 1.0 } else { -1.0 },
+        3 => base + *src.pick(&[0.5, 0.25, -0.5, 0.125, 0.75]),
+        _ => base + *src.pick(&[1e-6, -1e-6, 1e-9, 1e-3]),
+    };
+    if x == 0.0 || R::in_range(x) {
+        x
+    } else {
+        base
+    }
+}
 fn random_case(src: &mut Src, ctx: &mut Ctx) -> Result<(), String> {
     ctx.extra_evals(31);
     for k in 0..32 {
@@ -246,7 +276,12 @@ fn random_real_case(src: &mut Src, ctx: &mut Ctx) -> Result<(), String> {
 // ---- sub-check: reals travel through UNITS / MAG / ANGLE records --------------------------------
 fn record_case(src: &mut Src, ctx: &mut Ctx) -> Result<(), String> {
     use gds21::*;
-    let v: Vec<f64> = (0..4).map(|_| random_double(src)).collect();
+    // half the fields hold any in-range double, half a value of the kind these records hold in practice
+    // (degrees, magnifications, unit sizes): whole and fractional, right angles and their neighbours
+    let v: Vec<f64> = (0..4).map(|_| if src.bool() { random_double(src) } else { plausible_field(src) }).collect();
+    if v[3].fract() != 0.0 && [90.0, 180.0, 270.0].contains(&v[3].trunc().abs()) {
+        ctx.label("ANGLE: fractional value next to a right angle");
+    }
     ctx.sample("reals inside UNITS/MAG/ANGLE records", || format!("units=({:e},{:e}) mag={:e} angle={:e}", v[0], v[1], v[2], v[3]));
     let mut lib = GdsLibrary::new("L");
     lib.units = GdsUnits(v[0], v[1]);
